@@ -3,6 +3,13 @@ C20 — Chemical-reaction steps conserve energy and keep molecules aligned.
 Property theorems only; helper lemmas are in `Proofs/C20.lean`.  The carrier `F` is an arbitrary
 ordered field (exact arithmetic).  The population sits at depth 2 of the stack before an update
 (products on top, reactants below) and on top afterwards.
+
+Which of several EQUAL individuals is taken as the reactant is not part of the property: the
+`*_any` theorems hold for every legal index witness (`legal1` / `legal2`: an index of an individual
+equal to the reactant; two distinct ones for two reactants); the theorems without suffix are their
+instances for the code's choice (first match), which is legal on every state (`legal1_first`,
+`legal2_first`).  The `history_*` theorems are about arbitrary sequences of updates as the CRO loop
+produces them.
 -/
 import MahfModel.Proofs.C20
 namespace MahfModel.Props.C20
@@ -14,9 +21,10 @@ variable {F : Type} [Field F] [LinearOrder F] [IsStrictOrderedRing F]
 
 /-! ### Energy conservation: Σ objective + Σ kinetic energy + buffer is unchanged -/
 
-theorem onwall_conserves (lr a : F) (st : St F) (h : (onWall lr a st).status = .ok) :
-    (onWall lr a st).st.energyAt 0 = st.energyAt 2 := by
-  obtain ⟨p, r, pop, rest, i, x, m, hs, hx, hxr, _, hm, hcase⟩ := onWall_ok lr a st h
+theorem onwall_conserves_any (lr a : F) (i : Nat) (st : St F) (hl : legal1 i st = true)
+    (h : (onWallAt lr a i st).status = .ok) :
+    (onWallAt lr a i st).st.energyAt 0 = st.energyAt 2 := by
+  obtain ⟨p, r, pop, rest, x, m, hs, hx, hxr, _, hm, hcase⟩ := onWallAt_ok lr a i st hl h
   rcases hcase with ⟨_, _, hst⟩ | ⟨_, hst⟩
   · rw [hst]; simp only [St.energyAt, hs, List.getD_cons_zero, List.getD_cons_succ]
     rw [energy_set pop st.mols st.buffer _ i x p m _ hx hm, hxr]
@@ -24,10 +32,10 @@ theorem onwall_conserves (lr a : F) (st : St F) (h : (onWall lr a st).status = .
   · rw [hst]; simp only [St.energyAt, hs, List.getD_cons_zero, List.getD_cons_succ]
     rw [energy_mols_set pop st.mols st.buffer i m _ hm]; simp only [Mol.hit]; ring
 
-theorem decomposition_conserves (dA δ1 δ2 dB : F) (st : St F)
-    (h : (decomposition dA δ1 δ2 dB st).status = .ok) :
-    (decomposition dA δ1 δ2 dB st).st.energyAt 0 = st.energyAt 2 := by
-  obtain ⟨p1, p2, r, pop, rest, i, x, m, hs, hx, hxr, _, hm, hcase⟩ := decomposition_ok dA δ1 δ2 dB st h
+theorem decomposition_conserves_any (dA δ1 δ2 dB : F) (i : Nat) (st : St F) (hl : legal1 i st = true)
+    (h : (decompositionAt dA δ1 δ2 dB i st).status = .ok) :
+    (decompositionAt dA δ1 δ2 dB i st).st.energyAt 0 = st.energyAt 2 := by
+  obtain ⟨p1, p2, r, pop, rest, x, m, hs, hx, hxr, _, hm, hcase⟩ := decompositionAt_ok dA δ1 δ2 dB i st hl h
   rcases hcase with ⟨_, hst⟩ | ⟨_, _, hst⟩ | ⟨_, _, hst⟩
   · rw [hst]; simp only [St.energyAt, hs, List.getD_cons_zero, List.getD_cons_succ]
     rw [energy_append, energy_set pop st.mols st.buffer _ i x p1 m _ hx hm, hxr]
@@ -38,10 +46,11 @@ theorem decomposition_conserves (dA δ1 δ2 dB : F) (st : St F)
     rw [energy_append, energy_set pop st.mols st.buffer _ i x p1 m _ hx hm, hxr]
     simp only [Mol.new]; ring
 
-theorem intermolecular_conserves (d4 : F) (st : St F) (h : (intermolecular d4 st).status = .ok) :
-    (intermolecular d4 st).st.energyAt 0 = st.energyAt 2 := by
-  obtain ⟨p1, p2, r1, r2, pop, rest, i, j, x, y, mi, mj, hs, hx, hxr, hy, hyr, hji, _, _, hmi, hmj, hcase⟩ :=
-    intermolecular_ok d4 st h
+theorem intermolecular_conserves_any (d4 : F) (i j : Nat) (st : St F) (hl : legal2 i j st = true)
+    (h : (intermolecularAt d4 i j st).status = .ok) :
+    (intermolecularAt d4 i j st).st.energyAt 0 = st.energyAt 2 := by
+  obtain ⟨p1, p2, r1, r2, pop, rest, x, y, mi, mj, hs, hx, hxr, hy, hyr, hji, _, _, hmi, hmj, hcase⟩ :=
+    intermolecularAt_ok d4 i j st hl h
   have hy' : ∀ z, (pop.set i z)[j]? = some y := fun z => by rw [List.getElem?_set_ne (Ne.symm hji)]; exact hy
   have hmj' : ∀ z, (st.mols.set i z)[j]? = some mj := fun z => by rw [List.getElem?_set_ne (Ne.symm hji)]; exact hmj
   rcases hcase with ⟨_, hst⟩ | ⟨_, hst⟩
@@ -53,10 +62,11 @@ theorem intermolecular_conserves (d4 : F) (st : St F) (h : (intermolecular d4 st
     rw [energy_mols_set pop _ st.buffer j mj _ (hmj' _), energy_mols_set pop st.mols st.buffer i mi _ hmi]
     simp only [Mol.hit]; ring
 
-theorem synthesis_conserves (st : St F) (h : (synthesis st).status = .ok) :
-    (synthesis st).st.energyAt 0 = st.energyAt 2 := by
-  obtain ⟨p, r1, r2, pop, rest, i, j, x, y, mi, mj, hs, hx, hxr, hy, hyr, hji, _, _, hmi, hmj, hcase⟩ :=
-    synthesis_ok st h
+theorem synthesis_conserves_any (i j : Nat) (st : St F) (hl : legal2 i j st = true)
+    (h : (synthesisAt i j st).status = .ok) :
+    (synthesisAt i j st).st.energyAt 0 = st.energyAt 2 := by
+  obtain ⟨p, r1, r2, pop, rest, x, y, mi, mj, hs, hx, hxr, hy, hyr, hji, _, _, hmi, hmj, hcase⟩ :=
+    synthesisAt_ok i j st hl h
   have hy' : ∀ z, (pop.set i z)[j]? = some y := fun z => by rw [List.getElem?_set_ne (Ne.symm hji)]; exact hy
   have hmj' : ∀ z, (st.mols.set i z)[j]? = some mj := fun z => by rw [List.getElem?_set_ne (Ne.symm hji)]; exact hmj
   rcases hcase with ⟨_, hst⟩ | ⟨_, hst⟩
@@ -66,11 +76,33 @@ theorem synthesis_conserves (st : St F) (h : (synthesis st).status = .ok) :
     simp only [Mol.new]; ring
   · rw [hst]; simp only [St.energyAt, hs, List.getD_cons_zero, List.getD_cons_succ]
 
+/-- The code's choice of reactant (first match; second reactant first match elsewhere). -/
+theorem onwall_conserves (lr a : F) (st : St F) (h : (onWall lr a st).status = .ok) :
+    (onWall lr a st).st.energyAt 0 = st.energyAt 2 :=
+  onwall_conserves_any lr a _ st (legal1_first st) h
+
+theorem decomposition_conserves (dA δ1 δ2 dB : F) (st : St F)
+    (h : (decomposition dA δ1 δ2 dB st).status = .ok) :
+    (decomposition dA δ1 δ2 dB st).st.energyAt 0 = st.energyAt 2 :=
+  decomposition_conserves_any dA δ1 δ2 dB _ st (legal1_first st) h
+
+theorem intermolecular_conserves (d4 : F) (st : St F) (h : (intermolecular d4 st).status = .ok) :
+    (intermolecular d4 st).st.energyAt 0 = st.energyAt 2 :=
+  intermolecular_conserves_any d4 _ _ st (legal2_first st) h
+
+theorem synthesis_conserves (st : St F) (h : (synthesis st).status = .ok) :
+    (synthesis st).st.energyAt 0 = st.energyAt 2 :=
+  synthesis_conserves_any _ _ st (legal2_first st) h
+
 /-! The hypothesis `status = ok` is satisfiable on non-trivial states (accepted on-wall collision,
 buffer-assisted decomposition, accepted inter-molecular collision, accepted synthesis). -/
 def exSt : St Rat :=
   { stack := [[⟨9, 4⟩], [⟨2, 3⟩], [⟨1, 5⟩, ⟨2, 3⟩, ⟨3, 7⟩]],
     mols := [⟨1, 0, 0, ⟨1, 5⟩⟩, ⟨2, 1, 0, ⟨2, 3⟩⟩, ⟨0, 2, 1, ⟨3, 7⟩⟩], buffer := 10 }
+/-- two equal twins (tag 2, objective 3) with different molecules -/
+def exTwins : St Rat :=
+  { stack := [[⟨9, 4⟩], [⟨2, 3⟩], [⟨1, 5⟩, ⟨2, 3⟩, ⟨2, 3⟩]],
+    mols := [⟨1, 0, 0, ⟨1, 5⟩⟩, ⟨2, 1, 0, ⟨2, 3⟩⟩, ⟨6, 2, 1, ⟨2, 3⟩⟩], buffer := 10 }
 example : (onWall (1 / 5) (1 / 2) exSt).status = .ok ∧ (onWall (1 / 5) (1 / 2) exSt).st.energyAt 0 = 28 ∧
     exSt.energyAt 2 = 28 := by decide +kernel
 example : (decomposition (1 / 2) (1 / 2) (1 / 2) (1 / 4) { exSt with stack := [[⟨8, 4⟩, ⟨9, 3⟩], [⟨2, 3⟩], [⟨1, 5⟩, ⟨2, 3⟩, ⟨3, 7⟩]] }).status = .ok ∧
@@ -83,10 +115,11 @@ example : (synthesis { exSt with stack := [[⟨8, 4⟩], [⟨3, 7⟩, ⟨1, 5⟩
 
 /-! ### Non-negativity of kinetic energies and buffer -/
 
-theorem onwall_nonneg (lr a : F) (st : St F) (h : (onWall lr a st).status = .ok)
+theorem onwall_nonneg_any (lr a : F) (i : Nat) (st : St F) (hl : legal1 i st = true)
+    (h : (onWallAt lr a i st).status = .ok)
     (hk : ∀ m ∈ st.mols, 0 ≤ m.ke) (hb : 0 ≤ st.buffer) (h0 : 0 ≤ lr) (hla : lr ≤ a) (ha1 : a ≤ 1) :
-    (∀ m ∈ (onWall lr a st).st.mols, 0 ≤ m.ke) ∧ 0 ≤ (onWall lr a st).st.buffer := by
-  obtain ⟨p, r, pop, rest, i, x, m, hs, hx, hxr, _, hm, hcase⟩ := onWall_ok lr a st h
+    (∀ m ∈ (onWallAt lr a i st).st.mols, 0 ≤ m.ke) ∧ 0 ≤ (onWallAt lr a i st).st.buffer := by
+  obtain ⟨p, r, pop, rest, x, m, hs, hx, hxr, _, hm, hcase⟩ := onWallAt_ok lr a i st hl h
   have hmk : 0 ≤ m.ke := hk m (List.mem_of_getElem? hm)
   rcases hcase with ⟨hc, _, hst⟩ | ⟨_, hst⟩
   · rw [hst]; constructor
@@ -103,11 +136,12 @@ theorem onwall_nonneg (lr a : F) (st : St F) (h : (onWall lr a st).status = .ok)
       · subst heq; exact hmk
     · exact hb
 
-theorem decomposition_nonneg (dA δ1 δ2 dB : F) (st : St F) (h : (decomposition dA δ1 δ2 dB st).status = .ok)
+theorem decomposition_nonneg_any (dA δ1 δ2 dB : F) (i : Nat) (st : St F) (hl : legal1 i st = true)
+    (h : (decompositionAt dA δ1 δ2 dB i st).status = .ok)
     (hk : ∀ m ∈ st.mols, 0 ≤ m.ke) (hb : 0 ≤ st.buffer)
     (hA : 0 ≤ dA ∧ dA ≤ 1) (h1 : 0 ≤ δ1 ∧ δ1 ≤ 1) (h2 : 0 ≤ δ2 ∧ δ2 ≤ 1) (hB : 0 ≤ dB ∧ dB ≤ 1) :
-    (∀ m ∈ (decomposition dA δ1 δ2 dB st).st.mols, 0 ≤ m.ke) ∧ 0 ≤ (decomposition dA δ1 δ2 dB st).st.buffer := by
-  obtain ⟨p1, p2, r, pop, rest, i, x, m, hs, hx, hxr, _, hm, hcase⟩ := decomposition_ok dA δ1 δ2 dB st h
+    (∀ m ∈ (decompositionAt dA δ1 δ2 dB i st).st.mols, 0 ≤ m.ke) ∧ 0 ≤ (decompositionAt dA δ1 δ2 dB i st).st.buffer := by
+  obtain ⟨p1, p2, r, pop, rest, x, m, hs, hx, hxr, _, hm, hcase⟩ := decompositionAt_ok dA δ1 δ2 dB i st hl h
   have hmk : 0 ≤ m.ke := hk m (List.mem_of_getElem? hm)
   rcases hcase with ⟨hc, hst⟩ | ⟨_, _, hst⟩ | ⟨_, hd, hst⟩
   · rw [hst]; refine ⟨?_, hb⟩
@@ -136,11 +170,12 @@ theorem decomposition_nonneg (dA δ1 δ2 dB : F) (st : St F) (h : (decomposition
     · have : δ1 * δ2 ≤ 1 := by nlinarith [h1.1, h1.2, h2.1, h2.2]
       exact mul_nonneg hb (by linarith)
 
-theorem intermolecular_nonneg (d4 : F) (st : St F) (h : (intermolecular d4 st).status = .ok)
+theorem intermolecular_nonneg_any (d4 : F) (i j : Nat) (st : St F) (hl : legal2 i j st = true)
+    (h : (intermolecularAt d4 i j st).status = .ok)
     (hk : ∀ m ∈ st.mols, 0 ≤ m.ke) (hb : 0 ≤ st.buffer) (hd : 0 ≤ d4 ∧ d4 ≤ 1) :
-    (∀ m ∈ (intermolecular d4 st).st.mols, 0 ≤ m.ke) ∧ 0 ≤ (intermolecular d4 st).st.buffer := by
-  obtain ⟨p1, p2, r1, r2, pop, rest, i, j, x, y, mi, mj, hs, hx, hxr, hy, hyr, hji, _, _, hmi, hmj, hcase⟩ :=
-    intermolecular_ok d4 st h
+    (∀ m ∈ (intermolecularAt d4 i j st).st.mols, 0 ≤ m.ke) ∧ 0 ≤ (intermolecularAt d4 i j st).st.buffer := by
+  obtain ⟨p1, p2, r1, r2, pop, rest, x, y, mi, mj, hs, hx, hxr, hy, hyr, hji, _, _, hmi, hmj, hcase⟩ :=
+    intermolecularAt_ok d4 i j st hl h
   rcases hcase with ⟨hc, hst⟩ | ⟨_, hst⟩
   · rw [hst]; refine ⟨?_, hb⟩
     intro m' hm'
@@ -157,11 +192,12 @@ theorem intermolecular_nonneg (d4 : F) (st : St F) (h : (intermolecular d4 st).s
       · subst heq; exact hk mi (List.mem_of_getElem? hmi)
     · subst heq; exact hk mj (List.mem_of_getElem? hmj)
 
-theorem synthesis_nonneg (st : St F) (h : (synthesis st).status = .ok)
+theorem synthesis_nonneg_any (i j : Nat) (st : St F) (hl : legal2 i j st = true)
+    (h : (synthesisAt i j st).status = .ok)
     (hk : ∀ m ∈ st.mols, 0 ≤ m.ke) (hb : 0 ≤ st.buffer) :
-    (∀ m ∈ (synthesis st).st.mols, 0 ≤ m.ke) ∧ 0 ≤ (synthesis st).st.buffer := by
-  obtain ⟨p, r1, r2, pop, rest, i, j, x, y, mi, mj, hs, hx, hxr, hy, hyr, hji, _, _, hmi, hmj, hcase⟩ :=
-    synthesis_ok st h
+    (∀ m ∈ (synthesisAt i j st).st.mols, 0 ≤ m.ke) ∧ 0 ≤ (synthesisAt i j st).st.buffer := by
+  obtain ⟨p, r1, r2, pop, rest, x, y, mi, mj, hs, hx, hxr, hy, hyr, hji, _, _, hmi, hmj, hcase⟩ :=
+    synthesisAt_ok i j st hl h
   rcases hcase with ⟨hc, hst⟩ | ⟨_, hst⟩
   · rw [hst]; refine ⟨?_, hb⟩
     intro m' hm'
@@ -171,23 +207,144 @@ theorem synthesis_nonneg (st : St F) (h : (synthesis st).status = .ok)
     · subst heq; simp only [Mol.new]; linarith
   · rw [hst]; exact ⟨hk, hb⟩
 
+theorem onwall_nonneg (lr a : F) (st : St F) (h : (onWall lr a st).status = .ok)
+    (hk : ∀ m ∈ st.mols, 0 ≤ m.ke) (hb : 0 ≤ st.buffer) (h0 : 0 ≤ lr) (hla : lr ≤ a) (ha1 : a ≤ 1) :
+    (∀ m ∈ (onWall lr a st).st.mols, 0 ≤ m.ke) ∧ 0 ≤ (onWall lr a st).st.buffer :=
+  onwall_nonneg_any lr a _ st (legal1_first st) h hk hb h0 hla ha1
+
+theorem decomposition_nonneg (dA δ1 δ2 dB : F) (st : St F) (h : (decomposition dA δ1 δ2 dB st).status = .ok)
+    (hk : ∀ m ∈ st.mols, 0 ≤ m.ke) (hb : 0 ≤ st.buffer)
+    (hA : 0 ≤ dA ∧ dA ≤ 1) (h1 : 0 ≤ δ1 ∧ δ1 ≤ 1) (h2 : 0 ≤ δ2 ∧ δ2 ≤ 1) (hB : 0 ≤ dB ∧ dB ≤ 1) :
+    (∀ m ∈ (decomposition dA δ1 δ2 dB st).st.mols, 0 ≤ m.ke) ∧ 0 ≤ (decomposition dA δ1 δ2 dB st).st.buffer :=
+  decomposition_nonneg_any dA δ1 δ2 dB _ st (legal1_first st) h hk hb hA h1 h2 hB
+
+theorem intermolecular_nonneg (d4 : F) (st : St F) (h : (intermolecular d4 st).status = .ok)
+    (hk : ∀ m ∈ st.mols, 0 ≤ m.ke) (hb : 0 ≤ st.buffer) (hd : 0 ≤ d4 ∧ d4 ≤ 1) :
+    (∀ m ∈ (intermolecular d4 st).st.mols, 0 ≤ m.ke) ∧ 0 ≤ (intermolecular d4 st).st.buffer :=
+  intermolecular_nonneg_any d4 _ _ st (legal2_first st) h hk hb hd
+
+theorem synthesis_nonneg (st : St F) (h : (synthesis st).status = .ok)
+    (hk : ∀ m ∈ st.mols, 0 ≤ m.ke) (hb : 0 ≤ st.buffer) :
+    (∀ m ∈ (synthesis st).st.mols, 0 ≤ m.ke) ∧ 0 ≤ (synthesis st).st.buffer :=
+  synthesis_nonneg_any _ _ st (legal2_first st) h hk hb
+
+/-- The hypotheses of the non-negativity theorems are satisfiable on a state where the loss is
+positive (accepted on-wall collision with `lr = 1/5 ≤ a = 1/2 ≤ 1`). -/
+example : (onWall (1 / 5) (1 / 2) exSt).status = .ok ∧ (∀ m ∈ exSt.mols, (0 : Rat) ≤ m.ke) ∧ (0 : Rat) ≤ exSt.buffer ∧
+    (0 : Rat) ≤ 1 / 5 ∧ (1 / 5 : Rat) ≤ 1 / 2 ∧ (1 / 2 : Rat) ≤ 1 := by decide +kernel
+
 /-! ### Alignment: one molecule record per individual, in the same order.
 `pop.zip mols` pairs every individual with its molecule; an update only ever replaces the pair at
 the reactant's index, appends one pair (decomposition) or removes the pair of the second reactant
 (synthesis) — every other individual keeps *its* molecule at *its* index. -/
 
+theorem molecules_aligned_onwall_any (lr a : F) (i : Nat) (st : St F) (hl : legal1 i st = true)
+    (h : (onWallAt lr a i st).status = .ok)
+    (hal : (st.stack.getD 2 []).length = st.mols.length) :
+    ((onWallAt lr a i st).st.stack.getD 0 []).length = (onWallAt lr a i st).st.mols.length ∧
+    ∃ x, ((onWallAt lr a i st).st.stack.getD 0 []).zip (onWallAt lr a i st).st.mols =
+      ((st.stack.getD 2 []).zip st.mols).set i x := by
+  obtain ⟨p, r, pop, rest, x, m, hs, hx, hxr, _, hm, hcase⟩ := onWallAt_ok lr a i st hl h
+  simp only [hs, List.getD_cons_zero, List.getD_cons_succ] at hal ⊢
+  rcases hcase with ⟨_, _, hst⟩ | ⟨_, hst⟩
+  · rw [hst]; simp only [List.getD_cons_zero, List.length_set]
+    exact ⟨hal, _, zip_set pop st.mols i _ _⟩
+  · rw [hst]; simp only [List.getD_cons_zero, List.length_set]
+    exact ⟨hal, _, zip_set_right pop st.mols i x _ hx⟩
+
+theorem molecules_aligned_decomposition_any (dA δ1 δ2 dB : F) (i : Nat) (st : St F) (hl : legal1 i st = true)
+    (h : (decompositionAt dA δ1 δ2 dB i st).status = .ok)
+    (hal : (st.stack.getD 2 []).length = st.mols.length) :
+    ((decompositionAt dA δ1 δ2 dB i st).st.stack.getD 0 []).length = (decompositionAt dA δ1 δ2 dB i st).st.mols.length ∧
+    ∃ x, (((decompositionAt dA δ1 δ2 dB i st).st.stack.getD 0 []).zip (decompositionAt dA δ1 δ2 dB i st).st.mols =
+              ((st.stack.getD 2 []).zip st.mols).set i x) ∨
+           (∃ y, ((decompositionAt dA δ1 δ2 dB i st).st.stack.getD 0 []).zip (decompositionAt dA δ1 δ2 dB i st).st.mols =
+              ((st.stack.getD 2 []).zip st.mols).set i x ++ [y]) := by
+  obtain ⟨p1, p2, r, pop, rest, x, m, hs, hx, hxr, _, hm, hcase⟩ := decompositionAt_ok dA δ1 δ2 dB i st hl h
+  simp only [hs, List.getD_cons_zero, List.getD_cons_succ] at hal ⊢
+  rcases hcase with ⟨_, hst⟩ | ⟨_, _, hst⟩ | ⟨_, _, hst⟩
+  · rw [hst]; simp only [List.getD_cons_zero, List.length_append, List.length_set, List.length_cons, List.length_nil]
+    exact ⟨by omega, _, Or.inr ⟨_, zip_set_append pop st.mols i _ _ _ _ hal⟩⟩
+  · rw [hst]; simp only [List.getD_cons_zero, List.length_set]
+    exact ⟨hal, _, Or.inl (zip_set_right pop st.mols i x _ hx)⟩
+  · rw [hst]; simp only [List.getD_cons_zero, List.length_append, List.length_set, List.length_cons, List.length_nil]
+    exact ⟨by omega, _, Or.inr ⟨_, zip_set_append pop st.mols i _ _ _ _ hal⟩⟩
+
+theorem molecules_aligned_intermolecular_any (d4 : F) (i j : Nat) (st : St F) (hl : legal2 i j st = true)
+    (h : (intermolecularAt d4 i j st).status = .ok)
+    (hal : (st.stack.getD 2 []).length = st.mols.length) :
+    ((intermolecularAt d4 i j st).st.stack.getD 0 []).length = (intermolecularAt d4 i j st).st.mols.length ∧
+    ∃ x y, j ≠ i ∧ ((intermolecularAt d4 i j st).st.stack.getD 0 []).zip (intermolecularAt d4 i j st).st.mols =
+      (((st.stack.getD 2 []).zip st.mols).set i x).set j y := by
+  obtain ⟨p1, p2, r1, r2, pop, rest, x, y, mi, mj, hs, hx, hxr, hy, hyr, hji, _, _, hmi, hmj, hcase⟩ :=
+    intermolecularAt_ok d4 i j st hl h
+  simp only [hs, List.getD_cons_zero, List.getD_cons_succ] at hal ⊢
+  rcases hcase with ⟨_, hst⟩ | ⟨_, hst⟩
+  · rw [hst]; simp only [List.getD_cons_zero, List.length_set]
+    exact ⟨hal, _, _, hji, by rw [zip_set, zip_set]⟩
+  · rw [hst]; simp only [List.getD_cons_zero, List.length_set]
+    refine ⟨hal, (x, mi.hit), (y, mj.hit), hji, ?_⟩
+    rw [zip_set_right pop _ j y _ hy, zip_set_right pop _ i x _ hx]
+
+theorem molecules_aligned_synthesis_any (i j : Nat) (st : St F) (hl : legal2 i j st = true)
+    (h : (synthesisAt i j st).status = .ok)
+    (hal : (st.stack.getD 2 []).length = st.mols.length) :
+    ((synthesisAt i j st).st.stack.getD 0 []).length = (synthesisAt i j st).st.mols.length ∧
+    (((synthesisAt i j st).st.stack.getD 0 []).zip (synthesisAt i j st).st.mols = (st.stack.getD 2 []).zip st.mols ∨
+     ∃ x, j ≠ i ∧ ((synthesisAt i j st).st.stack.getD 0 []).zip (synthesisAt i j st).st.mols =
+      (((st.stack.getD 2 []).zip st.mols).set i x).eraseIdx j) := by
+  obtain ⟨p, r1, r2, pop, rest, x, y, mi, mj, hs, hx, hxr, hy, hyr, hji, _, _, hmi, hmj, hcase⟩ :=
+    synthesisAt_ok i j st hl h
+  simp only [hs, List.getD_cons_zero, List.getD_cons_succ] at hal ⊢
+  rcases hcase with ⟨_, hst⟩ | ⟨_, hst⟩
+  · rw [hst]; simp only [List.getD_cons_zero]
+    refine ⟨?_, Or.inr ⟨_, hji, by rw [zip_eraseIdx, zip_set]⟩⟩
+    simp only [List.length_eraseIdx, List.length_set, hal]
+  · rw [hst]; simp only [List.getD_cons_zero]
+    exact ⟨hal, Or.inl trivial⟩
+
+/-- The indices at which the zipped list changes are indices of individuals EQUAL to the reactants
+(for the code's choice: the first such index, and the first other such index): whenever the
+reactants exist in the population, a legal witness points at them, and at two different places. -/
+theorem legal_witness_is_reactant (i j : Nat) (q : Pop F) (pop : Pop F) (rest : List (Pop F)) (mols : List (Mol F))
+    (buffer : F) (r1 r2 : Ind F) :
+    (position pop r1 ≠ none → legal1 i ⟨q :: [r1] :: pop :: rest, mols, buffer⟩ = true →
+        ∃ x, pop[i]? = some x ∧ (x == r1) = true) ∧
+    (position pop r1 ≠ none → (∀ i0, position pop r1 = some i0 → positionOther pop i0 r2 ≠ none) →
+        legal2 i j ⟨q :: [r1, r2] :: pop :: rest, mols, buffer⟩ = true →
+        (∃ x, pop[i]? = some x ∧ (x == r1) = true) ∧ (∃ y, pop[j]? = some y ∧ (y == r2) = true) ∧ i ≠ j) := by
+  constructor
+  · intro hp hl
+    cases hq : position pop r1 with
+    | none => exact absurd hq hp
+    | some i0 =>
+      simp only [legal1, hq, Option.isNone_some, Bool.false_or] at hl
+      exact isAt_some hl
+  · intro hp hp2 hl
+    cases hq : position pop r1 with
+    | none => exact absurd hq hp
+    | some i0 =>
+      cases hq2 : positionOther pop i0 r2 with
+      | none => exact absurd hq2 (hp2 i0 hq)
+      | some j0 =>
+        simp only [legal2, hq, hq2, Bool.and_eq_true, bne_iff_ne, ne_eq] at hl
+        exact ⟨isAt_some hl.1.1, isAt_some hl.1.2, hl.2⟩
+
+/-- With two equal twins in the population both are legal reactants of an on-wall collision, and
+they lead to different (both energy-conserving) states: the choice matters, and is a witness. -/
+example : legal1 1 exTwins = true ∧ legal1 2 exTwins = true ∧ legal1 0 exTwins = false ∧
+    (onWallAt (1 / 5) (1 / 2) 1 exTwins).st.energyAt 0 = exTwins.energyAt 2 ∧
+    (onWallAt (1 / 5) (1 / 2) 2 exTwins).st.energyAt 0 = exTwins.energyAt 2 ∧
+    (onWallAt (1 / 5) (1 / 2) 1 exTwins).st.buffer ≠ (onWallAt (1 / 5) (1 / 2) 2 exTwins).st.buffer := by
+  decide +kernel
+
 theorem molecules_aligned_onwall (lr a : F) (st : St F) (h : (onWall lr a st).status = .ok)
     (hal : (st.stack.getD 2 []).length = st.mols.length) :
     ((onWall lr a st).st.stack.getD 0 []).length = (onWall lr a st).st.mols.length ∧
     ∃ i x, ((onWall lr a st).st.stack.getD 0 []).zip (onWall lr a st).st.mols =
-      ((st.stack.getD 2 []).zip st.mols).set i x := by
-  obtain ⟨p, r, pop, rest, i, x, m, hs, hx, hxr, _, hm, hcase⟩ := onWall_ok lr a st h
-  simp only [hs, List.getD_cons_zero, List.getD_cons_succ] at hal ⊢
-  rcases hcase with ⟨_, _, hst⟩ | ⟨_, hst⟩
-  · rw [hst]; simp only [List.getD_cons_zero, List.length_set]
-    exact ⟨hal, i, _, zip_set pop st.mols i _ _⟩
-  · rw [hst]; simp only [List.getD_cons_zero, List.length_set]
-    exact ⟨hal, i, _, zip_set_right pop st.mols i x _ hx⟩
+      ((st.stack.getD 2 []).zip st.mols).set i x :=
+  ⟨(molecules_aligned_onwall_any lr a _ st (legal1_first st) h hal).1, _,
+    (molecules_aligned_onwall_any lr a _ st (legal1_first st) h hal).2⟩
 
 theorem molecules_aligned_decomposition (dA δ1 δ2 dB : F) (st : St F)
     (h : (decomposition dA δ1 δ2 dB st).status = .ok)
@@ -196,31 +353,17 @@ theorem molecules_aligned_decomposition (dA δ1 δ2 dB : F) (st : St F)
     ∃ i x, (((decomposition dA δ1 δ2 dB st).st.stack.getD 0 []).zip (decomposition dA δ1 δ2 dB st).st.mols =
               ((st.stack.getD 2 []).zip st.mols).set i x) ∨
            (∃ y, ((decomposition dA δ1 δ2 dB st).st.stack.getD 0 []).zip (decomposition dA δ1 δ2 dB st).st.mols =
-              ((st.stack.getD 2 []).zip st.mols).set i x ++ [y]) := by
-  obtain ⟨p1, p2, r, pop, rest, i, x, m, hs, hx, hxr, _, hm, hcase⟩ := decomposition_ok dA δ1 δ2 dB st h
-  simp only [hs, List.getD_cons_zero, List.getD_cons_succ] at hal ⊢
-  rcases hcase with ⟨_, hst⟩ | ⟨_, _, hst⟩ | ⟨_, _, hst⟩
-  · rw [hst]; simp only [List.getD_cons_zero, List.length_append, List.length_set, List.length_cons, List.length_nil]
-    exact ⟨by omega, i, _, Or.inr ⟨_, zip_set_append pop st.mols i _ _ _ _ hal⟩⟩
-  · rw [hst]; simp only [List.getD_cons_zero, List.length_set]
-    exact ⟨hal, i, _, Or.inl (zip_set_right pop st.mols i x _ hx)⟩
-  · rw [hst]; simp only [List.getD_cons_zero, List.length_append, List.length_set, List.length_cons, List.length_nil]
-    exact ⟨by omega, i, _, Or.inr ⟨_, zip_set_append pop st.mols i _ _ _ _ hal⟩⟩
+              ((st.stack.getD 2 []).zip st.mols).set i x ++ [y]) :=
+  ⟨(molecules_aligned_decomposition_any dA δ1 δ2 dB _ st (legal1_first st) h hal).1, _,
+    (molecules_aligned_decomposition_any dA δ1 δ2 dB _ st (legal1_first st) h hal).2⟩
 
 theorem molecules_aligned_intermolecular (d4 : F) (st : St F) (h : (intermolecular d4 st).status = .ok)
     (hal : (st.stack.getD 2 []).length = st.mols.length) :
     ((intermolecular d4 st).st.stack.getD 0 []).length = (intermolecular d4 st).st.mols.length ∧
     ∃ i j x y, j ≠ i ∧ ((intermolecular d4 st).st.stack.getD 0 []).zip (intermolecular d4 st).st.mols =
-      (((st.stack.getD 2 []).zip st.mols).set i x).set j y := by
-  obtain ⟨p1, p2, r1, r2, pop, rest, i, j, x, y, mi, mj, hs, hx, hxr, hy, hyr, hji, _, _, hmi, hmj, hcase⟩ :=
-    intermolecular_ok d4 st h
-  simp only [hs, List.getD_cons_zero, List.getD_cons_succ] at hal ⊢
-  rcases hcase with ⟨_, hst⟩ | ⟨_, hst⟩
-  · rw [hst]; simp only [List.getD_cons_zero, List.length_set]
-    exact ⟨hal, i, j, _, _, hji, by rw [zip_set, zip_set]⟩
-  · rw [hst]; simp only [List.getD_cons_zero, List.length_set]
-    refine ⟨hal, i, j, (x, mi.hit), (y, mj.hit), hji, ?_⟩
-    rw [zip_set_right pop _ j y _ hy, zip_set_right pop _ i x _ hx]
+      (((st.stack.getD 2 []).zip st.mols).set i x).set j y :=
+  ⟨(molecules_aligned_intermolecular_any d4 _ _ st (legal2_first st) h hal).1, _, _,
+    (molecules_aligned_intermolecular_any d4 _ _ st (legal2_first st) h hal).2⟩
 
 theorem molecules_aligned_synthesis (st : St F) (h : (synthesis st).status = .ok)
     (hal : (st.stack.getD 2 []).length = st.mols.length) :
@@ -228,15 +371,8 @@ theorem molecules_aligned_synthesis (st : St F) (h : (synthesis st).status = .ok
     (((synthesis st).st.stack.getD 0 []).zip (synthesis st).st.mols = (st.stack.getD 2 []).zip st.mols ∨
      ∃ i j x, j ≠ i ∧ ((synthesis st).st.stack.getD 0 []).zip (synthesis st).st.mols =
       (((st.stack.getD 2 []).zip st.mols).set i x).eraseIdx j) := by
-  obtain ⟨p, r1, r2, pop, rest, i, j, x, y, mi, mj, hs, hx, hxr, hy, hyr, hji, _, _, hmi, hmj, hcase⟩ :=
-    synthesis_ok st h
-  simp only [hs, List.getD_cons_zero, List.getD_cons_succ] at hal ⊢
-  rcases hcase with ⟨_, hst⟩ | ⟨_, hst⟩
-  · rw [hst]; simp only [List.getD_cons_zero]
-    refine ⟨?_, Or.inr ⟨i, j, _, hji, by rw [zip_eraseIdx, zip_set]⟩⟩
-    simp only [List.length_eraseIdx, List.length_set, hal]
-  · rw [hst]; simp only [List.getD_cons_zero]
-    exact ⟨hal, Or.inl trivial⟩
+  obtain ⟨h1, h2⟩ := molecules_aligned_synthesis_any _ _ st (legal2_first st) h hal
+  exact ⟨h1, h2.imp id (fun ⟨x, hx⟩ => ⟨_, _, x, hx⟩)⟩
 
 /-- `ChemicalReactionInit`: one fresh molecule (given kinetic energy, no hits, best = the
 individual) per individual of the current population, in order. -/
@@ -249,7 +385,30 @@ theorem molecules_aligned_init (ke : F) (st : St F) :
 /-! ### Stack frame -/
 
 /-- A successful update consumes exactly the product and the reactant population: what was the
-third population is now on top (updated), everything below is untouched. -/
+third population is now on top (updated), everything below is untouched — whichever equal
+individual was taken as the reactant. -/
+theorem reaction_frame_any (rx : Rx F) (st : St F) (hl : rx.legalIdx st = true) (h : (rx.apply st).status = .ok) :
+    3 ≤ st.stack.length ∧ (rx.apply st).st.stack.drop 1 = st.stack.drop 3 ∧
+    (rx.apply st).st.stack.length + 2 = st.stack.length := by
+  cases rx with
+  | onWall lr a i =>
+    obtain ⟨p, r, pop, rest, x, m, hs, _, _, _, _, hcase⟩ := onWallAt_ok lr a i st hl h
+    simp only [Rx.apply]
+    rcases hcase with ⟨_, _, hst⟩ | ⟨_, hst⟩ <;> rw [hst, hs] <;> simp
+  | decomp dA δ1 δ2 dB i =>
+    obtain ⟨p1, p2, r, pop, rest, x, m, hs, _, _, _, _, hcase⟩ := decompositionAt_ok dA δ1 δ2 dB i st hl h
+    simp only [Rx.apply]
+    rcases hcase with ⟨_, hst⟩ | ⟨_, _, hst⟩ | ⟨_, _, hst⟩ <;> rw [hst, hs] <;> simp
+  | inter d4 i j =>
+    obtain ⟨p1, p2, r1, r2, pop, rest, x, y, mi, mj, hs, _, _, _, _, _, _, _, _, _, hcase⟩ :=
+      intermolecularAt_ok d4 i j st hl h
+    simp only [Rx.apply]
+    rcases hcase with ⟨_, hst⟩ | ⟨_, hst⟩ <;> rw [hst, hs] <;> simp
+  | synth i j =>
+    obtain ⟨p, r1, r2, pop, rest, x, y, mi, mj, hs, _, _, _, _, _, _, _, _, _, hcase⟩ := synthesisAt_ok i j st hl h
+    simp only [Rx.apply]
+    rcases hcase with ⟨_, hst⟩ | ⟨_, hst⟩ <;> rw [hst, hs] <;> simp
+
 theorem reaction_frame (lr a dA δ1 δ2 dB d4 : F) (st : St F) :
     ((onWall lr a st).status = .ok →
         3 ≤ st.stack.length ∧ (onWall lr a st).st.stack.drop 1 = st.stack.drop 3 ∧
@@ -262,17 +421,11 @@ theorem reaction_frame (lr a dA δ1 δ2 dB d4 : F) (st : St F) :
         (intermolecular d4 st).st.stack.length + 2 = st.stack.length) ∧
     ((synthesis st).status = .ok →
         3 ≤ st.stack.length ∧ (synthesis st).st.stack.drop 1 = st.stack.drop 3 ∧
-        (synthesis st).st.stack.length + 2 = st.stack.length) := by
-  refine ⟨fun h => ?_, fun h => ?_, fun h => ?_, fun h => ?_⟩
-  · obtain ⟨p, r, pop, rest, i, x, m, hs, _, _, _, _, hcase⟩ := onWall_ok lr a st h
-    rcases hcase with ⟨_, _, hst⟩ | ⟨_, hst⟩ <;> rw [hst, hs] <;> simp
-  · obtain ⟨p1, p2, r, pop, rest, i, x, m, hs, _, _, _, _, hcase⟩ := decomposition_ok dA δ1 δ2 dB st h
-    rcases hcase with ⟨_, hst⟩ | ⟨_, _, hst⟩ | ⟨_, _, hst⟩ <;> rw [hst, hs] <;> simp
-  · obtain ⟨p1, p2, r1, r2, pop, rest, i, j, x, y, mi, mj, hs, _, _, _, _, _, _, _, _, _, hcase⟩ :=
-      intermolecular_ok d4 st h
-    rcases hcase with ⟨_, hst⟩ | ⟨_, hst⟩ <;> rw [hst, hs] <;> simp
-  · obtain ⟨p, r1, r2, pop, rest, i, j, x, y, mi, mj, hs, _, _, _, _, _, _, _, _, _, hcase⟩ := synthesis_ok st h
-    rcases hcase with ⟨_, hst⟩ | ⟨_, hst⟩ <;> rw [hst, hs] <;> simp
+        (synthesis st).st.stack.length + 2 = st.stack.length) :=
+  ⟨reaction_frame_any (.onWall lr a _) st (legal1_first st),
+   reaction_frame_any (.decomp dA δ1 δ2 dB _) st (legal1_first st),
+   reaction_frame_any (.inter d4 _ _) st (legal2_first st),
+   reaction_frame_any (.synth _ _) st (legal2_first st)⟩
 
 /-- With fewer than three populations every update refuses with `Err` and touches nothing. -/
 theorem reaction_frame_short (lr a dA δ1 δ2 dB d4 : F) (st : St F) (h : st.stack.length < 3) :
@@ -282,11 +435,244 @@ theorem reaction_frame_short (lr a dA δ1 δ2 dB d4 : F) (st : St F) (h : st.sta
     ((synthesis st).status = .err ∧ (synthesis st).st = st) := by
   obtain ⟨stack, mols, buffer⟩ := st
   match stack, h with
-  | [], _ => simp [onWall, decomposition, intermolecular, synthesis]
-  | [_], _ => simp [onWall, decomposition, intermolecular, synthesis]
-  | [_, _], _ => simp [onWall, decomposition, intermolecular, synthesis]
+  | [], _ => simp [onWall, decomposition, intermolecular, synthesis, onWallAt, decompositionAt, intermolecularAt, synthesisAt]
+  | [_], _ => simp [onWall, decomposition, intermolecular, synthesis, onWallAt, decompositionAt, intermolecularAt, synthesisAt]
+  | [_, _], _ => simp [onWall, decomposition, intermolecular, synthesis, onWallAt, decompositionAt, intermolecularAt, synthesisAt]
+
+/-! ### Histories: any sequence of updates, as the CRO loop produces them
+
+A step pushes a reactant and a product population (any populations: the selection and variation
+operators are not constrained) and runs one update; `runSteps` chains steps and stops at the first
+update that does not return `Ok`.  `runLegalIdx` says every reactant index witness is legal in the
+state it is used in (the code's first-match choice always is). -/
+
+theorem step_conserves (s : Step F) (st : St F) (hl : s.rx.legalIdx (s.pushed st) = true)
+    (h : (s.apply st).status = .ok) : (s.apply st).st.energyAt 0 = st.energyAt 0 := by
+  have hp : (s.pushed st).energyAt 2 = st.energyAt 0 := by
+    simp [Step.pushed, St.energyAt]
+  rw [← hp]
+  obtain ⟨r, p, rx⟩ := s
+  cases rx with
+  | onWall lr a i => exact onwall_conserves_any lr a i _ hl h
+  | decomp dA δ1 δ2 dB i => exact decomposition_conserves_any dA δ1 δ2 dB i _ hl h
+  | inter d4 i j => exact intermolecular_conserves_any d4 i j _ hl h
+  | synth i j => exact synthesis_conserves_any i j _ hl h
+
+/-- **Energy is constant over every history of updates** (accepted, rejected, buffer-assisted, in
+any order, with any reactants and products, any draws, any legal choice among equal reactants). -/
+theorem history_conserves (steps : List (Step F)) (st st' : St F) (hl : runLegalIdx steps st = true)
+    (h : runSteps steps st = some st') : st'.energyAt 0 = st.energyAt 0 := by
+  induction steps generalizing st with
+  | nil => simp only [runSteps, Option.some.injEq] at h; rw [h]
+  | cons s ss ih =>
+    simp only [runLegalIdx, Bool.and_eq_true] at hl
+    simp only [runSteps] at h
+    split at h
+    · rename_i hok
+      rw [ih _ hl.2 h, step_conserves s st hl.1 hok]
+    · simp at h
+
+theorem step_keeps_invariant (s : Step F) (st : St F) (hl : s.rx.legalIdx (s.pushed st) = true)
+    (hd : s.rx.legalDraws) (h : (s.apply st).status = .ok) (hI : RunInv st) : RunInv (s.apply st).st := by
+  have hp : InvT ((s.pushed st).stack.getD 2 []) (s.pushed st).mols (s.pushed st).buffer := by
+    have : (s.pushed st).stack.getD 2 [] = st.stack.headD [] := by
+      simp only [Step.pushed, List.getD_cons_succ]
+      cases st.stack <;> simp
+    rw [this]; exact hI
+  obtain ⟨r, p, rx⟩ := s
+  cases rx with
+  | onWall lr a i => exact onWallAt_inv lr a i _ hl h hd hp
+  | decomp dA δ1 δ2 dB i => exact decompositionAt_inv dA δ1 δ2 dB i _ hl h hd hp
+  | inter d4 i j => exact intermolecularAt_inv d4 i j _ hl h hd hp
+  | synth i j => exact synthesisAt_inv i j _ hl h hp
+
+/-- **The run invariant**: from a state in which population and molecule list are index-aligned, no
+kinetic energy and not the buffer is negative, `min_hit ≤ num_hit` and every molecule's remembered
+best is at least as good as its individual, every history of updates with legal draws (loss-rate
+draw in `[lr, 1]`, `0 ≤ lr`; all others in `[0, 1]`) ends in such a state again. -/
+theorem history_keeps_invariant (steps : List (Step F)) (st st' : St F) (hl : runLegalIdx steps st = true)
+    (hd : ∀ s ∈ steps, s.rx.legalDraws) (h : runSteps steps st = some st') (hI : RunInv st) : RunInv st' := by
+  induction steps generalizing st with
+  | nil => simp only [runSteps, Option.some.injEq] at h; rw [← h]; exact hI
+  | cons s ss ih =>
+    simp only [runLegalIdx, Bool.and_eq_true] at hl
+    simp only [runSteps] at h
+    split at h
+    · rename_i hok
+      exact ih _ hl.2 (fun t ht => hd t (List.mem_cons_of_mem _ ht)) h
+        (step_keeps_invariant s st hl.1 (hd s List.mem_cons_self) hok hI)
+    · simp at h
+
+/-- `ChemicalReactionInit` establishes the invariant (non-negative initial kinetic energy and
+buffer, a population on the stack). -/
+theorem init_establishes_invariant (ke buf : F) (st : St F) (hk : 0 ≤ ke) (hb : 0 ≤ buf) :
+    RunInv (init ke { st with buffer := buf }) := by
+  unfold RunInv init
+  refine ⟨by simp, ?_, ?_, hb, ?_⟩
+  · intro m hm
+    simp only [List.mem_map] at hm
+    obtain ⟨x, _, rfl⟩ := hm; exact hk
+  · intro m hm
+    simp only [List.mem_map] at hm
+    obtain ⟨x, _, rfl⟩ := hm; exact Nat.le_refl _
+  · intro xm hxm
+    have : ∀ (l : Pop F), ∀ xm ∈ l.zip (l.map (Mol.new ke)), xm.2.best.obj ≤ xm.1.obj := by
+      intro l
+      induction l with
+      | nil => simp
+      | cons a as ih =>
+        intro xm hxm
+        simp only [List.map_cons, List.zip_cons_cons, List.mem_cons] at hxm
+        rcases hxm with rfl | hin
+        · exact le_refl _
+        · exact ih xm hin
+    exact this _ xm hxm
+
+/-- The stack below the population is never touched and the height is the same after every history:
+each step consumes exactly the two populations it was given. -/
+theorem history_frame (steps : List (Step F)) (st st' : St F) (hl : runLegalIdx steps st = true)
+    (h : runSteps steps st = some st') :
+    st'.stack.drop 1 = st.stack.drop 1 ∧ st'.stack.length = st.stack.length := by
+  induction steps generalizing st with
+  | nil => simp only [runSteps, Option.some.injEq] at h; rw [h]; exact ⟨rfl, rfl⟩
+  | cons s ss ih =>
+    simp only [runLegalIdx, Bool.and_eq_true] at hl
+    simp only [runSteps] at h
+    split at h
+    · rename_i hok
+      obtain ⟨h1, h2⟩ := ih _ hl.2 h
+      obtain ⟨_, f2, f3⟩ := reaction_frame_any s.rx (s.pushed st) hl.1 hok
+      simp only [Step.pushed, List.drop_succ_cons, List.length_cons] at f2 f3
+      exact ⟨by rw [h1]; exact f2, by rw [h2]; exact Nat.add_right_cancel f3⟩
+    · simp at h
+
+/-- A three-step history on a three-molecule population: accepted on-wall collision, accepted
+synthesis, buffer-assisted decomposition; all witnesses legal, energy 28 before and after. -/
+def exSteps : List (Step Rat) :=
+  [⟨[⟨2, 3⟩], [⟨9, 4⟩], .onWall (1 / 5) (1 / 2) 1⟩,
+   ⟨[⟨3, 7⟩, ⟨1, 5⟩], [⟨8, 4⟩], .synth 2 0⟩,
+   ⟨[⟨9, 4⟩], [⟨10, 3⟩, ⟨11, 2⟩], .decomp (1 / 2) (1 / 2) (1 / 2) (1 / 4) 0⟩]
+def exSt0 : St Rat := { exSt with stack := [[⟨1, 5⟩, ⟨2, 3⟩, ⟨3, 7⟩], [⟨77, 1⟩]] }
+example : runLegalIdx exSteps exSt0 = true ∧ (runSteps exSteps exSt0).isSome = true ∧
+    ((runSteps exSteps exSt0).map (·.energyAt 0)) = some 28 ∧ exSt0.energyAt 0 = 28 ∧
+    ((runSteps exSteps exSt0).map (·.mols.length)) = some 3 ∧
+    ((runSteps exSteps exSt0).map (·.stack.length)) = some 2 := by decide +kernel
+
+/-- … and the hypotheses of `history_keeps_invariant` hold for it. -/
+example : RunInv exSt0 ∧ ∀ s ∈ exSteps, s.rx.legalDraws := by
+  refine ⟨⟨by decide, by decide +kernel, by decide +kernel, by decide +kernel, by decide +kernel⟩, ?_⟩
+  intro s hs
+  simp only [exSteps, List.mem_cons, List.not_mem_nil, or_false] at hs
+  rcases hs with rfl | rfl | rfl <;> simp only [Rx.legalDraws] <;> norm_num
+
+/-! ### Non-negativity does not depend on exact arithmetic
+
+The theorems above are about an ordered field.  The non-negativity clause holds on every carrier
+whose (possibly rounded) operations satisfy `MonoArith` — monotone rounding with exact `0` and `1`
+on a total order, which is what IEEE-754 doubles give as long as no NaN arises — so the clause is
+not merely true "up to rounding". -/
+
+/-- Exact arithmetic is one instance (the hypothesis `MonoArith` is satisfiable). -/
+theorem monoArith_of_orderedField : MonoArith F :=
+  ⟨fun _ _ _ => le_trans, fun _ _ h => not_lt.mp h, fun _ _ => add_nonneg, fun _ _ h => sub_nonneg.mpr h,
+   fun _ _ => mul_nonneg, fun a b _ ha1 hb0 hb1 => by nlinarith⟩
+
+section rounded
+variable {G : Type} [BEq G] [Add G] [Sub G] [Mul G] [LT G] [LE G] [DecidableLT G] [DecidableLE G] [OfNat G 0] [OfNat G 1]
+
+/-- One update (any of the four, any legal reactant index, legal draws) on a carrier with
+monotone arithmetic: no kinetic energy and not the buffer becomes negative. -/
+theorem reaction_nonneg_rounded (A : MonoArith G) (rx : Rx G) (st : St G) (hl : rx.legalIdx st = true)
+    (hd : rx.legalDraws) (h : (rx.apply st).status = .ok) (hN : NonNeg st) : NonNeg (rx.apply st).st := by
+  obtain ⟨hk, hb⟩ := hN
+  cases rx with
+  | onWall lr a i =>
+    obtain ⟨h0, hla, ha1⟩ := hd
+    obtain ⟨p, r, pop, rest, x, m, hs, hx, _, hm, hcase⟩ := onWallAt_okW lr a i st hl h
+    have hmk : 0 ≤ m.ke := hk m (List.mem_of_getElem? hm)
+    simp only [Rx.apply]
+    rcases hcase with ⟨hc, _, hst⟩ | ⟨_, hst⟩
+    · rw [hst]
+      have hd0 := A.sub_nonneg _ _ hc
+      exact ⟨nonneg_set hk i _ (A.mul_nonneg _ _ hd0 (A.le_trans _ _ _ h0 hla)),
+        A.add_nonneg _ _ hb (A.mul_nonneg _ _ hd0 (A.sub_nonneg _ _ ha1))⟩
+    · rw [hst]; exact ⟨nonneg_set hk i _ hmk, hb⟩
+  | decomp dA δ1 δ2 dB i =>
+    obtain ⟨hA, h1, h2, hB⟩ := hd
+    obtain ⟨p1, p2, r, pop, rest, x, m, hs, hx, _, hm, hcase⟩ := decompositionAt_okW dA δ1 δ2 dB i st hl h
+    have hmk : 0 ≤ m.ke := hk m (List.mem_of_getElem? hm)
+    simp only [Rx.apply]
+    rcases hcase with ⟨hc, hst⟩ | ⟨_, _, hst⟩ | ⟨_, hde, hst⟩
+    · rw [hst]
+      have hd0 := A.sub_nonneg _ _ hc
+      exact ⟨nonneg_append (nonneg_set hk i _ (A.mul_nonneg _ _ hd0 hA.1)) _
+        (A.mul_nonneg _ _ hd0 (A.sub_nonneg _ _ hA.2)), hb⟩
+    · rw [hst]; exact ⟨nonneg_set hk i _ hmk, hb⟩
+    · rw [hst]
+      have hd0 := A.le_of_not_lt _ _ hde
+      exact ⟨nonneg_append (nonneg_set hk i _ (A.mul_nonneg _ _ hd0 hB.1)) _
+        (A.mul_nonneg _ _ hd0 (A.sub_nonneg _ _ hB.2)),
+        A.mul_nonneg _ _ hb (A.sub_nonneg _ _ (A.mul_le_one _ _ h1.1 h1.2 h2.1 h2.2))⟩
+  | inter d4 i j =>
+    obtain ⟨p1, p2, r1, r2, pop, rest, x, y, mi, mj, hs, hx, hy, hji, _, _, hmi, hmj, hcase⟩ :=
+      intermolecularAt_okW d4 i j st hl h
+    simp only [Rx.apply]
+    rcases hcase with ⟨hc, hst⟩ | ⟨_, hst⟩
+    · rw [hst]
+      refine ⟨nonneg_set (nonneg_set hk i _ ?_) j _ ?_, hb⟩
+      · rw [updateBest_keW]; exact A.mul_nonneg _ _ hc hd.1
+      · rw [updateBest_keW]; exact A.mul_nonneg _ _ hc (A.sub_nonneg _ _ hd.2)
+    · rw [hst]
+      exact ⟨nonneg_set (nonneg_set hk i mi.hit (hk mi (List.mem_of_getElem? hmi))) j mj.hit (hk mj (List.mem_of_getElem? hmj)), hb⟩
+  | synth i j =>
+    obtain ⟨p, r1, r2, pop, rest, x, y, mi, mj, hs, hx, hy, hji, _, _, hmi, hmj, hcase⟩ := synthesisAt_okW i j st hl h
+    simp only [Rx.apply]
+    rcases hcase with ⟨hc, hst⟩ | ⟨_, hst⟩
+    · rw [hst]
+      refine ⟨?_, hb⟩
+      intro m hin
+      exact nonneg_set hk i _ (A.sub_nonneg _ _ hc) m (List.mem_of_mem_eraseIdx hin)
+    · rw [hst]; exact ⟨hk, hb⟩
+
+/-- … and so after every history of updates. -/
+theorem history_nonneg_rounded (A : MonoArith G) (steps : List (Step G)) (st st' : St G)
+    (hl : runLegalIdx steps st = true) (hd : ∀ s ∈ steps, s.rx.legalDraws)
+    (h : runSteps steps st = some st') (hN : NonNeg st) : NonNeg st' := by
+  induction steps generalizing st with
+  | nil => simp only [runSteps, Option.some.injEq] at h; rw [← h]; exact hN
+  | cons s ss ih =>
+    simp only [runLegalIdx, Bool.and_eq_true] at hl
+    simp only [runSteps] at h
+    split at h
+    · rename_i hok
+      refine ih _ hl.2 (fun t ht => hd t (List.mem_cons_of_mem _ ht)) h ?_
+      exact reaction_nonneg_rounded A s.rx (s.pushed st) hl.1 (hd s List.mem_cons_self) hok hN
+    · simp at h
+
+end rounded
+
+example : MonoArith Rat := monoArith_of_orderedField
+example : NonNeg exSt0 ∧ ((runSteps exSteps exSt0).map (fun s => decide (0 ≤ s.buffer))) = some true := by
+  refine ⟨⟨by decide +kernel, by decide +kernel⟩, by decide +kernel⟩
 
 /-! ### The criteria read the molecule at the selected individual's index -/
+
+/-- In every state satisfying the run invariant the decomposition criterion's `u32` subtraction
+`num_hit - min_hit` cannot underflow: with a single selected individual that occurs in the
+population below it, the criterion returns a value (no panic, no error). -/
+theorem decomposition_criterion_total (alpha : Nat) (s : Ind F) (pop : Pop F) (rest : List (Pop F)) (mols : List (Mol F))
+    (buffer : F) (hI : InvT pop mols buffer) (i : Nat) (hp : position pop s = some i) :
+    ∃ b, decompositionCriterion alpha ⟨[s] :: pop :: rest, mols, buffer⟩ = .val b := by
+  obtain ⟨x, hx, _⟩ := position_some pop s i hp
+  have hlt : i < mols.length := by
+    rw [← hI.aligned]
+    by_contra hc
+    rw [List.getElem?_eq_none (by omega)] at hx; simp at hx
+  have hm : mols[i]? = some mols[i] := List.getElem?_eq_getElem hlt
+  have hh := hI.hits mols[i] (List.getElem_mem hlt)
+  exact ⟨decide (mols[i].numHit - mols[i].minHit > alpha), by simp [decompositionCriterion, hp, hm, Nat.not_lt.mpr hh]⟩
+
+
 
 /-- With the selected individual on top of the population, the decomposition criterion reads the
 molecule at the index `i` of the first individual of the population equal to the selected one. -/
